@@ -80,7 +80,7 @@ def cxx_str(t):
     return '"' + out + '"'
 
 
-def render_grammar(gi, case, with_cases=True, lite=False, ctxmix=False):
+def render_grammar(gi, case, with_cases=True, lite=False, ctxmix=False, customlex=False):
     g = case["grammar"]
     ns = "g%d" % gi
     nN = g["nN"]
@@ -100,14 +100,32 @@ def render_grammar(gi, case, with_cases=True, lite=False, ctxmix=False):
             assoc = "associativity::" + ["no_assoc", "ltor", "rtol"][ti["assoc"]]
             plain = ti["prec"] == 0 and ti["assoc"] == 0
             k = sp["kind"]
+            if customlex:
+                # C18: every terminal is a custom_term (display name, functor, precedence, associativity); a hand-written longest-match lexer supplies (index in terms(...), length)
+                if plain and rnd.random() < 0.5:
+                    out.append("constexpr custom_term T%d(%s, hh::TF<%d>{});" % (t, cxx_str(sp["name"]), t))
+                elif ti["assoc"] == 0 and rnd.random() < 0.5:
+                    out.append("constexpr custom_term T%d(%s, hh::TF<%d>{}, %d);" % (t, cxx_str(sp["name"]), t, ti["prec"]))
+                else:
+                    out.append("constexpr custom_term T%d(%s, hh::TF<%d>{}, %d, %s);" % (t, cxx_str(sp["name"]), t, ti["prec"], assoc))
+                decl[t] = "T%d" % t
+                in_rules[t] = ["T%d" % t]
+                continue
+            if k in ("T", "r"):
+                # the same language "<letter>[0-9]+" written with hex escapes in half of the programs (content-derived choice, so that a replay renders the same text)
+                import zlib
+                hv = zlib.crc32(("%d|%s|%s" % (t, sp["name"], json.dumps(g["rules"], sort_keys=True))).encode())
+                pat_text = sp["text"]
+                if hv % 2 == 0:
+                    pat_text = "\\x%02x" % ord(sp["text"][0]) + ("[0-9]+" if hv % 4 == 0 else "[\\x30-\\x39]+")
             if k == "T":
                 # typed term wrapping a regex term that has a custom display name
-                out.append("constexpr char pat%d[] = %s;" % (t, cxx_str(sp["text"])))
+                out.append("constexpr char pat%d[] = %s;" % (t, cxx_str(pat_text)))
                 out.append("constexpr typed_term T%d(regex_term<pat%d>(%s, %d, %s), hh::TF<%d>{});" % (t, t, cxx_str(sp["name"]), ti["prec"], assoc, t))
                 decl[t] = "T%d" % t
                 in_rules[t] = ["T%d" % t]
             elif k in ("r", "R"):
-                out.append("constexpr char pat%d[] = %s;" % (t, cxx_str(sp["text"])))
+                out.append("constexpr char pat%d[] = %s;" % (t, cxx_str(pat_text if k == "r" else sp["text"])))
                 if k == "r":
                     out.append("constexpr regex_term<pat%d> T%d(%s, %d, %s);" % (t, t, cxx_str(sp["name"]), ti["prec"], assoc))
                 else:
@@ -135,6 +153,25 @@ def render_grammar(gi, case, with_cases=True, lite=False, ctxmix=False):
         out.append("struct M { static constexpr int term_of(std::string_view lex) { %s return -1; } };" % " ".join(tof))
         terms = [decl[t] for t in case["decl_order"]]
         functor = "hh::F2<%d, M>{}"
+        if customlex:
+            tries = []
+            for pos, t in enumerate(case["decl_order"]):
+                sp = spelling[t]
+                if sp["kind"] in ("r", "R", "T"):
+                    tries.append("rx(%d, '%s');" % (pos, sp["text"][0]))
+                else:
+                    tries.append("lit(%d, std::string_view(%s, %d));" % (pos, cxx_str(sp["text"]), len(sp["text"])))
+            out.append("""struct Lx {
+  template<class It, class ES> constexpr recognized_term match(match_options, source_point, It start, It end, ES&) {
+    size_t best_len = 0; int best = -1;
+    auto take = [&](int idx, size_t k) { if (k > best_len || (k == best_len && k > 0 && idx < best)) { best_len = k; best = idx; } };
+    auto lit = [&](int idx, std::string_view s) { It it = start; size_t k = 0; while (k < s.size() && !(it == end) && *it == s[k]) { ++it; ++k; } if (k == s.size()) take(idx, k); };
+    auto rx = [&](int idx, char first) { It it = start; if (it == end || *it != first) return; ++it; size_t k = 1; while (!(it == end) && *it >= '0' && *it <= '9') { ++it; ++k; } if (k >= 2) take(idx, k); };
+    %s
+    if (best < 0) return recognized_term{};
+    return recognized_term(size16_t(best), best_len);
+  }
+};""" % " ".join(tries))
     else:
         for t, ti in enumerate(g["terms"]):
             ch = chr(ord('a') + t)
@@ -168,8 +205,8 @@ def render_grammar(gi, case, with_cases=True, lite=False, ctxmix=False):
                 txt += " >= " + functor % r["slot"]
         rules.append(txt)
     # the parser stores pointers into itself (term names), so it is always constructed in place, never returned by value
-    out.append("#define G%d_ARGS N%d, terms(%s), nterms(%s), rules(\\\n    %s)" % (
-        gi, g["root"], ", ".join(terms), ", ".join("N%d" % i for i in range(nN)), ", \\\n    ".join(rules)))
+    out.append("#define G%d_ARGS N%d, terms(%s), nterms(%s), rules(\\\n    %s)%s" % (
+        gi, g["root"], ", ".join(terms), ", ".join("N%d" % i for i in range(nN)), ", \\\n    ".join(rules), ", use_lexer<Lx>{}" if customlex else ""))
     out.append("constexpr parser p(G%d_ARGS);" % gi)
     if with_cases and lite:
         # run-time only (C01/C02/C09 end-to-end through the DSL): the compile-time constructed parser, two run-time buffers
@@ -202,10 +239,10 @@ def render_grammar(gi, case, with_cases=True, lite=False, ctxmix=False):
     return "\n".join(out)
 
 
-def render_program(cases, idxs, lite=False, ctxmix=False):
+def render_program(cases, idxs, lite=False, ctxmix=False, customlex=False):
     parts = [PRELUDE]
     for gi in idxs:
-        parts.append(render_grammar(gi, cases[gi], True, lite, ctxmix))
+        parts.append(render_grammar(gi, cases[gi], True, lite, ctxmix, customlex))
     parts.append("int main() { hh::big_stack([] {")
     for gi in idxs:
         parts.append("  g%d::run_all();" % gi)
@@ -400,7 +437,7 @@ def parse_case_lines(out):
     return res
 
 
-def emit_cases(seed, n, work, spelling=True, only_class=None, named_terms=False):
+def emit_cases(seed, n, work, spelling=True, only_class=None, named_terms=False, always_spelled=False):
     ok, eg, log = BUILD.ensure("e_grammar", REPO)
     if not ok:
         return None, log
@@ -412,6 +449,8 @@ def emit_cases(seed, n, work, spelling=True, only_class=None, named_terms=False)
         env["EMIT_ONLY_CLASS"] = str(only_class)
     if named_terms:
         env["EMIT_NAMED_TERMS"] = "1"
+    if always_spelled:
+        env["EMIT_ALWAYS_SPELLED"] = "1"
     r = subprocess.run([eg, "--prop", "C07", "--mode", "emit", "--seed", str(seed), "--cases", str(n), "--size", "400", "--out", out], stdout=subprocess.PIPE, stderr=subprocess.STDOUT, env=env)
     if not os.path.exists(out):
         return None, r.stdout.decode("utf-8", "replace")[-3000:]
@@ -436,9 +475,9 @@ def run(pid, tier, seed, work, viol_dir, known_ids=()):
         cases = json.load(open(outp))["cases"]
         log = ""
     ncases = {"C03": {"quick": 16, "thorough": 160}, "C07": {"quick": 24, "thorough": 240}, "C17": {"quick": 8, "thorough": 60}, "C13": {"quick": 16, "thorough": 160},
-              "C01": {"quick": 16, "thorough": 160}, "C02": {"quick": 16, "thorough": 160}, "C05": {"quick": 16, "thorough": 160}, "C09": {"quick": 16, "thorough": 160}}[pid][tier]
+              "C01": {"quick": 16, "thorough": 160}, "C02": {"quick": 16, "thorough": 160}, "C05": {"quick": 16, "thorough": 160}, "C09": {"quick": 16, "thorough": 160}, "C18": {"quick": 12, "thorough": 120}}[pid][tier]
     if pid != "C03":
-      cases, log = emit_cases((seed + {"C01": 101, "C02": 202, "C05": 505, "C09": 909}.get(pid, 0)) % 0x7FFFFFFF or 1, ncases, work, spelling=(pid in ("C07", "C01", "C02", "C05", "C09")), only_class=(1 if pid == "C05" else None), named_terms=(pid == "C09"))
+      cases, log = emit_cases((seed + {"C01": 101, "C02": 202, "C05": 505, "C09": 909, "C18": 1818}.get(pid, 0)) % 0x7FFFFFFF or 1, ncases, work, spelling=(pid in ("C07", "C01", "C02", "C05", "C09", "C18")), only_class=(1 if pid == "C05" else None), named_terms=(pid == "C09"), always_spelled=(pid == "C18"))
     if cases is None:
         print("HARNESS-BUILD-FAILED engine=e_grammar (emit)")
         print(log)
@@ -453,15 +492,16 @@ def run(pid, tier, seed, work, viol_dir, known_ids=()):
     def lab(k, n=1):
         labels[k] = labels.get(k, 0) + n
 
-    lite = pid in ("C01", "C02", "C05", "C09")
+    lite = pid in ("C01", "C02", "C05", "C09", "C18")
     ctxmix = pid == "C05"
+    customlex = pid == "C18"
     if pid == "C07" or lite:
         per_tu = 1
         groups = [list(range(i, min(i + per_tu, len(cases)))) for i in range(0, len(cases), per_tu)]
         jobs = []
         for gi, idxs in enumerate(groups):
             src = os.path.join(work, "prog_%d.cpp" % gi)
-            open(src, "w").write(render_program(cases, idxs, lite, ctxmix))
+            open(src, "w").write(render_program(cases, idxs, lite, ctxmix, customlex))
             for cxx in (("clang++",) if (lite and gi % 2) else ("g++",) if lite else ("g++", "clang++")):
                 jobs.append((gi, idxs, src, cxx))
         with ThreadPoolExecutor(max_workers=16) as ex:
@@ -509,6 +549,8 @@ def run(pid, tier, seed, work, viol_dir, known_ids=()):
                                 what = "expression grouped against the documented precedence/associativity rules in a parser written in the DSL (%s, %s)" % (tag, cxx)
                             elif pid == "C09" and m != want_msg:
                                 what = "error report differs from the reference (%s, %s)" % (tag, cxx)
+                            elif pid == "C18" and ((want_acc and v != want_val) or m != want_msg):
+                                what = "a parser over custom terms with a hand-written longest-match lexer (use_lexer) gives %s than the reference gives for the generated lexer (%s, %s)" % ("another value" if (want_acc and v != want_val) else "other messages", tag, cxx)
                             if what:
                                 break
                     else:
@@ -533,7 +575,7 @@ def run(pid, tier, seed, work, viol_dir, known_ids=()):
                         vp = os.path.join(viol_dir, "%s_%s.json" % (pid, hashlib.sha1((json.dumps(case["grammar"]) + inp["hex"] + cxx).encode()).hexdigest()[:12]))
                         one = dict(case)
                         one["inputs"] = [inp]
-                        json.dump({"check": pid, "kind": "program", "lite": lite, "compiler": cxx, "what": what, "observed": d, "cases": [one], "idxs": [0], "source": render_program([one], [0], lite, ctxmix)}, open(vp, "w"))
+                        json.dump({"check": pid, "kind": "program", "lite": lite, "compiler": cxx, "what": what, "observed": d, "cases": [one], "idxs": [0], "source": render_program([one], [0], lite, ctxmix, customlex)}, open(vp, "w"))
                         violations.append((what, vp))
                         continue
                     ntoks = inp.get("tokens", 0)
@@ -757,7 +799,7 @@ def replay(path):
             if d.get("lite"):
                 for tag in ("sb", "sv", "svs"):
                     a, v, m = g[tag].split(":") if g else ("EXC", "0", "")
-                    if a == "EXC" or int(a) != want_acc or (d["check"] in ("C02", "C05") and want_acc and v != want_val) or (d["check"] == "C09" and m != inp["messages_hex"]):
+                    if a == "EXC" or int(a) != want_acc or (d["check"] in ("C02", "C05") and want_acc and v != want_val) or (d["check"] == "C09" and m != inp["messages_hex"]) or (d["check"] == "C18" and ((want_acc and v != want_val) or m != inp["messages_hex"])):
                         bad += 1
                         break
                 continue
